@@ -10,7 +10,10 @@ subprocess.run(f"git -C /repo worktree add -q --detach {wt} HEAD", shell=True, c
 os.makedirs("/tmp/ev-seeded", exist_ok=True)
 env = dict(os.environ, VERIF_REPO=wt, CARGO_NET_OFFLINE="true", VERIF_EVIDENCE_DIR="/tmp/ev-seeded")
 props = [json.loads(l)["id"] for l in open(os.path.join(root, "properties.jsonl"))]
-seeds = sys.argv[1:] or sorted(os.listdir(os.path.join(root, "seeded")))
+own = "--own" in sys.argv
+args = [a for a in sys.argv[1:] if a != "--own"]
+seeds = args or sorted(os.listdir(os.path.join(root, "seeded")))
+outfile = "kill_matrix_own.json" if own else "kill_matrix.json"
 results = {}
 try:
     for sd in seeds:
@@ -23,15 +26,16 @@ try:
             print(sd, "PATCH DOES NOT APPLY", flush=True)
             continue
         row = {}
-        for p in props:
+        for p in ([sd[:3]] if own else props):
             t0 = time.time()
             r = subprocess.run(["./tools/check.sh", p, "quick"], cwd=root, env=env, capture_output=True, text=True)
             classes = sorted({l.split()[3] for l in r.stdout.splitlines() if l.startswith("--- violation class")})
-            row[p] = {"rc": r.returncode, "classes": classes, "s": round(time.time() - t0, 1)}
+            occ = {l.split()[3].split("/")[1] if "/" in l.split()[3] else l.split()[3]: int(l.split("run ")[1].split(", ")[1].split()[0]) for l in r.stdout.splitlines() if l.startswith("--- violation class") and "occurrences" in l}
+            row[p] = {"rc": r.returncode, "classes": classes, "occurrences": occ, "s": round(time.time() - t0, 1)}
             print(sd, p, r.returncode, classes[:3], flush=True)
         results[sd] = row
         subprocess.run(f"git -C {wt} checkout -- .", shell=True)
-        json.dump(results, open(os.path.join(root, "kill_matrix.json"), "w"), indent=1)
+        json.dump(results, open(os.path.join(root, outfile), "w"), indent=1)
 finally:
     subprocess.run(f"git -C /repo worktree remove --force {wt}", shell=True, capture_output=True)
 print("== caught by")
